@@ -336,7 +336,7 @@ func (c09) Gen(r *core.Rand, tier string) interface{} {
 			op = C09Op{Obj: op.Obj, Op: "scribble"}
 		}
 		if op.Obj == "sc" && op.Op == "set_descs" && r.Chance(1, 4) {
-			op = C09Op{Obj: "sc", Op: "append_desc", List: []string{descs[r.Intn(len(descs))]}}
+			op = C09Op{Obj: "sc", Op: r.PickS("append_desc", "append_desc", "lend_desc"), List: []string{descs[r.Intn(len(descs))]}}
 		}
 		s.Ops = append(s.Ops, op)
 	}
@@ -422,6 +422,7 @@ type c09Desc struct {
 	obj       scte35.SegmentationDescriptor
 	subKnown  bool // the sub-segment flag has a defined value
 	upidKnown bool
+	lent      bool // another signal has been given this descriptor too (its back pointer is then anybody's guess)
 }
 
 const c09Mask33 = uint64(1)<<33 - 1
@@ -510,6 +511,25 @@ func (c09) Exec(script interface{}, c *core.Ctx) {
 			crc := ref.CRC32(input[:len(input)-4])
 			input[len(input)-4], input[len(input)-3], input[len(input)-2], input[len(input)-1] = byte(crc>>24), byte(crc>>16), byte(crc>>8), byte(crc)
 			c.Probe("decoded_section_with_command_length_0xFFF")
+		}
+		if len(s.Ops)%2 == 0 {
+			// a damaged section first: an avail_descriptor, then a segmentation descriptor whose
+			// identifier is broken. Whether or not the decoder refuses it, nothing of it belongs
+			// to the section decoded next.
+			bad := ref.Section{Tier: 0xFFF, Cmd: ref.Cmd{Kind: "null"}, Items: []ref.SpliceItem{
+				{Foreign: core.Hex{0x00, 0x08, 'C', 'U', 'E', 'I', 0xDE, 0xAD, 0xBE, 0xEF}},
+				{Seg: &ref.SegDesc{Event: 0x0BADBAD0, Program: true, NotRestricted: true, Type: 0x30}},
+			}}
+			bb, _ := bad.Bytes()
+			if i := bytes.LastIndex(bb, []byte("CUEI")); i > 0 {
+				bb[i+3] = 'X'
+				crc := ref.CRC32(bb[:len(bb)-4])
+				bb[len(bb)-4], bb[len(bb)-3], bb[len(bb)-2], bb[len(bb)-1] = byte(crc>>24), byte(crc>>16), byte(crc>>8), byte(crc)
+			}
+			if !c.Call("scte35.NewSCTE35(damaged section before the one under test)", func() { scte35.NewSCTE35(append([]byte{0}, bb...)) }) {
+				return
+			}
+			c.Probe("damaged_section_decoded_first")
 		}
 		var err error
 		if !c.Call("scte35.NewSCTE35(initial)", func() { sc, err = scte35.NewSCTE35(append([]byte{0}, input...)) }) {
@@ -633,7 +653,7 @@ func (c09) Exec(script interface{}, c *core.Ctx) {
 	}
 
 	hasForeign := func() bool { return len(foreign) > 0 }
-	var pairA, pairB scte35.SCTE35
+	var pairA, pairB, lendSig scte35.SCTE35
 	var pairAL, pairBL []scte35.SegmentationDescriptor
 
 	for i, op := range s.Ops {
@@ -721,6 +741,9 @@ func (c09) Exec(script interface{}, c *core.Ctx) {
 				if len(names) == 3 {
 					c.Probe("three_descriptors")
 				}
+				for _, n := range names {
+					descs[n].lent = false
+				}
 				items = names
 			case "append_desc":
 				// the idiom SetDescriptors(append(Descriptors(), d)), on this signal and, interleaved,
@@ -753,6 +776,7 @@ func (c09) Exec(script interface{}, c *core.Ctx) {
 					return
 				}
 				items = append(append([]string(nil), items...), op.List[0])
+				descs[op.List[0]].lent = false
 				c.Probe("descriptors_replaced")
 				c.Probe("descriptor_appended_to_the_signals_own_list")
 				for _, pr := range []struct {
@@ -767,6 +791,26 @@ func (c09) Exec(script interface{}, c *core.Ctx) {
 					if bad {
 						c.Fail("signals_independent", "descriptor_list_of_another_created_signal_changed", len(got), len(pr.want))
 						return
+					}
+				}
+			case "lend_desc":
+				// a descriptor of this signal is ALSO put into another signal's list (the same
+				// descriptor repeated in a later signal): this signal's list is its own
+				if len(op.List) != 1 || descs[op.List[0]] == nil {
+					continue
+				}
+				if !c.Call("SCTE35.SetDescriptors(on another signal, with a descriptor of this one)", func() {
+					if lendSig == nil {
+						lendSig = scte35.CreateSCTE35()
+					}
+					lendSig.SetDescriptors([]scte35.SegmentationDescriptor{descs[op.List[0]].obj})
+				}) {
+					return
+				}
+				descs[op.List[0]].lent = true
+				for _, n := range items {
+					if n == op.List[0] {
+						c.Probe("attached_descriptor_also_given_to_another_signal")
 					}
 				}
 			case "encode":
@@ -1512,7 +1556,7 @@ func c09Getters(c *core.Ctx, sc scte35.SCTE35, cmds map[string]*c09Cmd, descs ma
 				fail("Descriptors", "another list", "the descriptors that were set, in order")
 				return
 			}
-			if d.obj.SCTE35() != sc {
+			if !d.lent && d.obj.SCTE35() != sc {
 				fail("Descriptor.SCTE35", "another signal", "the signal it is attached to")
 				return
 			}
